@@ -275,6 +275,10 @@ def oracle(parts, outcome, obs):
                         adv_spec = r17["cb"]
                     # a BDS 3,0 report is taken as such when its reserved/validity fields allow it (MB bits 16-22 below 48,
                     # threat-type indicator bits 29-30 not the unassigned value 3)
+                    if mb(v, 1, 8) == 0x20:
+                        cs = '"%s"' % "".join((chr(64 + c) if 1 <= c <= 26 else (chr(c) if 48 <= c <= 57 else "")) for c in (mb(v, 9 + 6 * i, 14 + 6 * i) for i in range(8)))
+                        if row.get("ais") != cs:
+                            fails.append("segment %d: BDS 2,0 reply with the gate open shows callsign %s, its eight characters are %s" % (k, row.get("ais"), cs))
                     if mb(v, 1, 8) == 0x30 and mb(v, 16, 22) < 48 and mb(v, 29, 30) != 3:
                         want_te = "8306" if mb(v, 28, 28) else ("8305" if mb(v, 9, 9) else "-")
                         if row.get("te") != want_te:
